@@ -30,6 +30,7 @@ func init() {
 			{Name: "togo-drops-ellipsis", File: tg, Old: "\t\t\tArgs:     goExprs(v.Args),\n\t\t\tEllipsis: v.Ellipsis,\n", New: "\t\t\tArgs:     goExprs(v.Args),\n", Expect: "conv-field/togo.goExpr:CallExpr.Ellipsis"},
 			{Name: "togo-drops-assign", File: tg, Old: "\t\tAssign:     spec.Assign,\n", New: "", Expect: "conv-field/togo.goTypeSpec:TypeSpec.Assign"},
 			{Name: "fromgo-drops-recv", File: fg, Old: "\t\tRecv: gopFieldList(v.Recv),\n", New: "", Expect: "conv-field/fromgo.gopFuncDecl:FuncDecl.Recv"},
+			{Name: "fromgo-unwraps-parens", File: fg, Old: "func gopType(v ast.Expr) gopast.Expr {\n", New: "func gopType(v ast.Expr) gopast.Expr {\n\tif p, ok := v.(*ast.ParenExpr); ok {\n\t\tv = p.X\n\t}\n", Expect: "conv-identity/fromgo.gopType"},
 			{Name: "togo-values-from-names", File: tg, Old: "\t\tValues: goExprs(spec.Values),", New: "\t\tValues: nil,", Expect: "conv-field/togo.goValueSpec:ValueSpec.Values"},
 		},
 	})
@@ -120,6 +121,26 @@ func convCoverage(c *core.Check, pk *packages.Package, label string) {
 	info := pk.TypesInfo
 	for _, fd := range core.AllFuncDecls(pk) {
 		fname := core.FuncName(fd)
+		// identity rule: a converter never replaces the node it was asked to convert by one of its children
+		if fd.Type.Params != nil && fd.Type.Params.NumFields() >= 1 {
+			if src := paramObj(fd, info, 0); src != nil {
+				if pt := src.Type().String(); strings.Contains(pt, "ast.") {
+					bad := token.NoPos
+					ast.Inspect(fd.Body, func(n ast.Node) bool {
+						switch x := n.(type) {
+						case *ast.AssignStmt:
+							for _, l := range x.Lhs {
+								if identObj(info, l) == src && x.Tok == token.ASSIGN {
+									bad = x.Pos()
+								}
+							}
+						}
+						return true
+					})
+					c.Decide(!bad.IsValid(), "conv-identity", label+"."+fname, bad, "the node to convert is never reassigned", "the converter reassigns the node it was asked to convert (e.g. unwraps it to a child) before converting: a syntactic layer such as ParenExpr is silently dropped, so `chan (<-chan int)` comes back as `chan<- chan int`")
+				}
+			}
+		}
 		ast.Inspect(fd.Body, func(n ast.Node) bool {
 			cl, ok := n.(*ast.CompositeLit)
 			if !ok {
